@@ -257,6 +257,43 @@ def oracle_epeq(case, impl):
     return None
 
 
+def oracle_srcurl(case, impl):
+    """the list provider: a successful fetch returns, position by position, endpoints Equal to the ones the document lists; an
+    endpoint Equal to one of the previous successful call's list is that earlier object; a failed fetch returns an error"""
+    docs = case.split(" ")[1].split("|")
+    outs = impl.split(" ")
+    if impl.startswith(("PANIC", "TIMEOUT")) or len(outs) != len(docs):
+        return "srcurl did not complete: " + impl[:100]
+    prev = []          # (object, spec) of the previous successful call
+    created = 0
+    for k, (d, o) in enumerate(zip(docs, outs)):
+        if d == "E":
+            if o != "err":
+                return "call %d: the body is not the JSON list, GetEndpoints returned %s instead of an error" % (k + 1, o)
+            continue
+        specs = [] if d == "-" else d.split(",")
+        if o == "err":
+            return "call %d: the document lists %d endpoint(s), GetEndpoints returned an error" % (k + 1, len(specs))
+        if o.startswith("LEN") or "NE" in o.split(","):
+            return "call %d: the endpoints returned are not, position by position, Equal to the ones the document lists (%s)" % (k + 1, o)
+        got = [] if o == "-" else [int(x) for x in o.split(",")]
+        if len(got) != len(specs):
+            return "call %d: %d objects for %d listed endpoints" % (k + 1, len(got), len(specs))
+        cur = []
+        for obj, sp in zip(got, specs):
+            same = [po for po, ps in prev if ps == sp]
+            if same:
+                if obj not in same:
+                    return ("call %d: endpoint %s was in the previous list (object %s) but a different object (%d) was returned: its "
+                            "connection pool is thrown away at every refresh" % (k + 1, sp, same, obj))
+            else:
+                if obj < created:
+                    return "call %d: endpoint %s is not in the previous list but an older object (%d) was returned for it" % (k + 1, sp, obj)
+            created = max(created, obj + 1)
+            cur.append((obj, sp))
+        prev = cur
+    return None
+
 def _oracle_realep(case, impl):
     from props.c11 import oracle_realep
     return oracle_realep(case, impl)
@@ -264,7 +301,8 @@ def _oracle_realep(case, impl):
 
 SPEC = dict(
     lean_module="NV.Props.C08",
-    areas=[dict(name="realep", n_quick=25, n_thorough=400, shards_thorough=2, oracle=_oracle_realep, timeout=900),
+    areas=[dict(name="srcurl", n_quick=1500, n_thorough=30000, shards_thorough=2, oracle=oracle_srcurl, timeout=600),
+           dict(name="realep", n_quick=25, n_thorough=400, shards_thorough=2, oracle=_oracle_realep, timeout=900),
            dict(name="epeq", n_quick=20000, n_thorough=400000, shards_thorough=4, oracle=oracle_epeq),
            dict(name="mgr", n_quick=4000, n_thorough=160000, shards_thorough=8,
                 oracle=lambda c, i: oracle_mgr(c, i, "c08"), nontrivial=nontrivial_mgr, timeout=1200),
